@@ -27,6 +27,7 @@ var probes = map[string]func() (string, *failure){
 	"same-id-storm":           probeSameIDStorm,
 	"slow-subscriber":         probeSlowSubscriber,
 	"overlap-lock-cycle":      probeOverlapLockCycle,
+	"stop-waits-teardown":     probeStopWaitsTeardown,
 }
 
 func probeNames() []string {
@@ -668,3 +669,61 @@ func probeOverlapLockCycle() (string, *failure) {
 }
 
 var _ = context.Background
+
+// "Stop returns after closing all connections, runs Unload/OnStop, and all per-connection goroutines have
+// exited": with a slow tear-down (an OnClosed hook that takes 300 ms) the difference between "the connection
+// noticed that it must close" and "the connection has finished closing" is observable.  When Stop returns,
+// every OnClosed call must have returned, OnStop must have fired after all of them, and no client may be
+// registered any more.
+func probeStopWaitsTeardown() (string, *failure) {
+	bound := *flagWatchdog
+	b, f := startBroker(nil)
+	if f != nil {
+		return "", f
+	}
+	// the bootstrap client of startBroker has been closed: wait until its tear-down is over
+	deadline := time.Now().Add(3 * time.Second)
+	for atomic.LoadInt64(&b.plg.closedBegin) != atomic.LoadInt64(&b.plg.closedEnd) || b.srv.ClientService().GetClient("bootstrap") != nil {
+		if time.Now().After(deadline) {
+			return "", failf("watchdog", "the bootstrap connection did not finish closing within 3s")
+		}
+		time.Sleep(10 * time.Millisecond)
+	}
+	atomic.StoreInt64(&b.plg.closedDelay, int64(300*time.Millisecond))
+	ids := []string{"td1", "td2", "td3"}
+	for _, id := range ids {
+		if _, err := dialClient(b.addr, id, false, true, 0, bound); err != nil {
+			return "", failf("watchdog", "CONNECT %s: %v", id, err)
+		}
+	}
+	idle, err := net.Dial("tcp", b.addr) // a connection that never sends CONNECT
+	if err == nil {
+		defer idle.Close()
+	}
+	time.Sleep(50 * time.Millisecond)
+	begun0 := atomic.LoadInt64(&b.plg.closedBegin)
+	el, f := b.stopBroker(1, bound)
+	if f != nil {
+		return "", f
+	}
+	begun, ended := atomic.LoadInt64(&b.plg.closedBegin), atomic.LoadInt64(&b.plg.closedEnd)
+	if begun != ended {
+		return "", failf("stop", "Stop returned nil after %s while %d of %d OnClosed hooks of registered connections were still running: Stop does not wait for the end of the tear-down of its connections",
+			el.Round(time.Millisecond), begun-ended, begun-begun0+0)
+	}
+	if begun-begun0 < int64(len(ids)) {
+		return "", failf("stop", "Stop returned nil after %s but only %d of %d registered connections had begun their OnClosed hook: their goroutines are still running", el.Round(time.Millisecond), begun-begun0, len(ids))
+	}
+	if p := atomic.LoadInt64(&b.plg.pendingAtStop); p != 0 {
+		return "", failf("stop", "OnStop fired while %d OnClosed hooks were still running", p)
+	}
+	for _, id := range ids {
+		if b.srv.ClientService().GetClient(id) != nil {
+			return "", failf("leak", "client %s is still registered after Stop returned", id)
+		}
+	}
+	if f := leakCheck(2 * time.Second); f != nil {
+		return "", f
+	}
+	return fmt.Sprintf("teardown_hooks=%d stop_ms=%.1f", begun-begun0, float64(el)/1e6), nil
+}
